@@ -207,7 +207,10 @@ pub fn run_one(bytes: &[u8], st: &mut Stats) -> Result<(), Failure> {
 
 static CORPUS: std::sync::OnceLock<Vec<Vec<u8>>> = std::sync::OnceLock::new();
 
-const EXTREMES: [&str; 40] = [
+const EXTREMES: [&str; 54] = [
+    // valid documents with long runs of one character (counters, buffers, quoting decisions)
+    "a = \"{'}\"", "a = '{\"}'", "a = \"{\\\"}\"", "a = \"\"\"{'}\"\"\"", "a = \'\'\'{\"}\'\'\'", "\"{'}\" = 1", "'{\"}' = 1",
+    "a = \"{\\n}\"", "a = \"\"\"{\n}\"\"\"", "a = [{\"'\",}]", "a = \"{\\\\}\"", "a = '{\\}'", "a = \"{\\u0000}\"", "{a = 1\n}",
     "a = 1e999999999", "a = -1e-999999999", "a = 0.{Z}1", "a = {9}", "a = -{9}", "a = 0x{F}", "a = 0b{1}", "a = 0o{7}",
     "a = 9999-12-31T23:59:60.{9}+23:59", "a = 0000-01-01", "a = 9999-99-99", "a = 00:00:00.{0}", "a = 1{_1}", "a = \"{\\u0000}",
     "a = \"\\U{F}\"", "a = '''{'}", "a = \"\"\"{\"}", "a = [{[}", "a = {{a=}", "{a.}b = 1", "[{a.}b]", "[[{a.}b]]", "a = [{1,}]",
@@ -367,7 +370,7 @@ fn child(args: &Args, rep: &mut Report) {
     }
     // the extremes at fixed sizes
     for e in EXTREMES {
-        for n in [0usize, 1, 2, 79, 80, 81, 400, 4000] {
+        for n in [0usize, 1, 2, 3, 79, 80, 81, 127, 128, 129, 255, 256, 257, 400, 1023, 1024, 1025, 4000] {
             let b = expand(e, n).into_bytes();
             if b.len() <= 8192 {
                 rep.stats.class("extreme");
